@@ -294,8 +294,9 @@ def gen_model_spec(rng: random.Random, *, allow_conv: bool = True,
     # module names: sometimes from a pool in which names are prefixes and
     # suffixes of each other, so that code matching layers by name has to be
     # exact (a state dict is keyed by these names)
-    pool = ['m1', 'm11', 'xm1', 'm', '1', 'm1x', 'am', 'm111', 'a', 'ma',
-            '11', 'x', 'mm', 'm1m1']
+    # ... and names that differ only in letter case
+    pool = ['m1', 'M1', 'm11', 'xm1', 'm', '1', 'm1x', 'am', 'A', 'a',
+            'm111', 'ma', 'Ma', '11', 'x', 'mm', 'm1m1']
     tricky = zoo and rng.random() < 0.3 and len(layers) <= len(pool)
     for i, s in enumerate(layers):
         s['name'] = pool[i] if tricky else f'm{i}'
